@@ -137,14 +137,30 @@ def render(cmd: dict, variant: int) -> str:
     if c == "quit":
         return ["q", "quit", "exit"][variant % 3]
     if c == "noop":
-        return ["h", "bogus", "", "s x", "skip 0", "read", "?", "skip -2"][variant % 8]
+        return ["h", "bogus", "", "s x", "skip 0", "read", "?", "skip -2", "r :b" + "1" * 4301 + ":0", "skip " + "9" * 4301][variant % 10]
     if c == "read":
         a = cmd["a"]
         astr = [str(a), hex(a)][variant % 2]
+        if variant % 5 >= 3:
+            astr = label_of(a, variant)         # the same address, spelled as one of its labels
         if cmd["kind"] == "w":
             return ["r ", "read "][variant % 2] + astr
         return f"r :{cmd['kind']}{cmd['len']}:{cmd['idx']}:{astr}"
     raise MachineryFailure(str(cmd))
+
+
+def label_of(a: int, variant: int) -> str:
+    """a label of the address: a global one, or one declared inside macro calls (the assembler joins the call path with ':' and '---')"""
+    return [f"v{a}", f"f1:l{a % 97}:hex.inc(2)---s18:l131:rep0:hex.inc.step(2)---v{a}"][variant % 2]
+
+
+def labels_for(script: List[dict], w: int) -> Dict[str, int]:
+    out = {"f1": w}                  # a global label that is a prefix (up to the first ':') of the macro-local ones
+    for c in script:
+        if c["c"] == "read":
+            for v in (0, 1):
+                out[label_of(c["a"], v)] = c["a"]
+    return out
 
 
 TITLE = re.compile(r"^==== (.*) ====$", re.M)
@@ -194,7 +210,7 @@ def _replay(args):
         path = d / "p.fjm"
         engines.write_image(path, w, idx % 4, img["_segs"])
         lines = [render(c, idx + k) for k, c in enumerate(beh["script"])]
-        handler = BreakpointHandler({int(b): None for b in beh["bps"]}, {}, {})
+        handler = BreakpointHandler({int(b): None for b in beh["bps"]}, {}, labels_for(beh["script"], w))
         dev = engines.make_device(img["inp"])
         out = io.StringIO()
         old_stdin = sys.stdin
